@@ -537,6 +537,9 @@ pub struct World {
     /// the consumer is polling a stream again after its final `None`: reference models are off, only the
     /// poll-discipline monitor (I3) on the children stays on
     pub post_final: bool,
+    /// mid-poll cross fires still allowed in this execution (bounded: with pass-through wakers and hundreds of
+    /// children an unbounded supply re-wakes the task in every poll and the execution never quiesces)
+    pub midfire_left: u32,
 }
 
 #[derive(Default, Debug, Clone)]
@@ -587,6 +590,7 @@ impl World {
             threaded: None,
             small_mode: false,
             post_final: false,
+            midfire_left: 48,
         }
     }
     fn rnd(&mut self) -> u64 {
